@@ -268,6 +268,21 @@ def r5(cx):
             continue
         s, f = M.outcome_edges(b, c["b"])
         reins = set(M.find_calls(b, lambda x: x.startswith(BUF) and x[len(BUF):] not in BUF_NOT_INSERT))
+        # recovery is different: the WAL handle is installed only after the replay (R6) and the persisted mark moves only on a successful flush, so a flush failure that
+        # ABORTS ensure_wal loses nothing - the entries are still in the WAL and the next start replays them.  It must abort, though: carrying on drops the batches for good.
+        if named_parent(k) == I + "ensure_wal" and f:
+            nonerr = {e[0] for e in M.exit_defs(b) if e[2] != "err"}
+            carries_on = False
+            for e in f:
+                reach = b.reachable(e[1]) | {e[1]}
+                if (nonerr & reach) or c["b"] in reach:
+                    carries_on = True
+            if not carries_on:
+                cx.passed(k, inst, [c["sp"]], "recovery aborts on a failed flush: nothing is installed, the entries stay in the WAL and are replayed by the next start")
+                continue
+            cx.violation(k, inst, "%s: recovery carries on after this flush failed: the batches taken from the buffer are dropped, recovery still finishes with last_wal_seq covering their "
+                         "entries, and the next successful flush moves the persisted mark past them" % c["sp"], [c["sp"]])
+            continue
         ok = False
         if f and reins:
             # every path from a failure edge to an exit / next iteration passes a re-insert
@@ -309,6 +324,37 @@ def r6(cx):
         cx.passed(ck, "replayed-batches-reach-buffer", [b.sp(a) for a in apps])
     else:
         cx.violation(ck, "replayed-batches-reach-buffer", "the batches decoded from the replayed WAL entries do not reach WriteBuffer::append", [b.sp(a) for a in apps])
+    # the replay visits every entry: the loop around the append is left only when the walk over the read entries is exhausted, or towards an Err exit
+    if apps:
+        a0 = apps[0]
+        fwd = b.reachable(a0)
+        scc = {x for x in fwd if a0 in b.reachable(x)} | {a0}
+        nexts = [x for x in sorted(scc) if b.term(x)["k"] == "call" and b.term(x)["callee"].endswith("::next")]
+        entry_nexts = [n for n in nexts if M.has_call(M.operand_origins(b, b.term(n)["args"][0], at=(n, M.T), adapters=M.PURE_ADAPTERS | {"std::iter::IntoIterator::into_iter", "core::slice::<impl [T]>::iter"}),
+                                                       lambda c: c == WAL + "read_entries_after")
+                       and not M.has_call(M.operand_origins(b, b.term(n)["args"][0], at=(n, M.T), adapters=M.PURE_ADAPTERS | {"std::iter::IntoIterator::into_iter", "core::slice::<impl [T]>::iter"}),
+                                          lambda c: c == "ingester::wal::WalEntry::batches")]
+        if not entry_nexts:
+            cx.violation(ck, "replay-visits-every-entry", "cannot find the walk over the entries read from the WAL around WriteBuffer::append (fail closed)", [b.sp(a0)])
+        else:
+            exhausted = set()
+            for n in entry_nexts:
+                exhausted |= M.outcome_edges(b, n)[1]
+            nonerr = {e[0] for e in M.exit_defs(b) if e[2] != "err"}
+            early = []
+            for u in sorted(scc):
+                if b.is_cleanup(u):
+                    continue
+                for v in b.succs(u):
+                    if v in scc or b.is_cleanup(v) or (u, v) in exhausted or b.term(v)["k"] == "unreachable":
+                        continue
+                    if nonerr & (b.reachable(v) | {v}):
+                        early.append((u, v))
+            if early:
+                cx.violation(ck, "replay-visits-every-entry", "%s: the replay loop can be left before the entries run out, and recovery still completes: the entries not replayed are in no "
+                             "buffer, new writes get sequence numbers above them, and the next flush moves the persisted mark past them" % b.sp(early[0][0]), [b.sp(early[0][0])])
+            else:
+                cx.passed(ck, "replay-visits-every-entry", [b.sp(entry_nexts[0])])
     rs = set()
     for rb in reads:
         rs |= M.outcome_edges(b, rb)[0]
